@@ -491,7 +491,7 @@ func c07whenProbe(c *core.Ctx) {
 
 func C07(c *core.Ctx) {
 	c07whenProbe(c)
-	c.Rule = "generated schemas (containers, keyed lists nested up to 3 levels, config-false containers/lists/leaves, defaults) × trees (values equal to their default, unset leaves with defaults, lists of 0–4 entries) × targets (module, container, list, list entry) × queries: every parameter alone and random combinations of depth (1–5), content (config/nonconfig/all), fields and fc.xfields (random expressions over the schema: nested paths, alternatives, groups, something after a group, unknown names), with-defaults=trim, fc.range (windows incl. empty, reversed, out of range, on nested lists, several lists, the target list itself), raw and percent-encoded; result (WriteJSON of the constrained selection) compared with the Lean projection model; source store compared before/after; ParsePathExpression compared with the Lean parser on every generated and on malformed expressions; a stream of invalid parameter values must be refused. non-trivial = query that removes something but not everything; distinct by (schema, tree, target, query)"
+	c.Rule = "generated schemas (containers, keyed lists nested up to 3 levels, config-false containers/lists/leaves, defaults) × trees (values equal to their default, unset leaves with defaults, lists of 0–4 entries) × targets (module, container, list, list entry) × queries: every parameter alone and random combinations of depth (1–5), content (config/nonconfig/all), fields and fc.xfields (random expressions over the schema: nested paths, alternatives, groups, something after a group, unknown names), with-defaults=trim, fc.range (windows incl. empty, reversed, out of range, on nested lists, several lists, the target list itself), raw and percent-encoded; result (WriteJSON of the constrained selection) compared with the Lean projection model; source store compared before/after; ParsePathExpression compared with the Lean parser on every generated and on malformed expressions; a stream of invalid parameter values must be refused; directed: a module whose ten when conditions all hold against the same module without them, 11 targets × 18 parameter sets (content, with-defaults, depth, fields, fc.xfields, fc.range and combinations). non-trivial = query that removes something but not everything; distinct by (schema, tree, target, query)"
 	c.Assumptions = append(c.Assumptions,
 		"the result is observed through the JSON writer (C15) and decoded by encoding/json; an empty array and an absent list are not distinguished",
 		"fc.range windows are rows start..end, both included (the reading under which '!0-0' is the first row, as the library answers)")
